@@ -54,6 +54,8 @@ def history_strategy(tier):
             sizes = sorted(draw(st.sets(st.sampled_from([1, 2, 4, 8]), min_size=2, max_size=4)))
             base = draw(st.integers(1, 4))
             strategies = [{"batch": b, "runtime": base + i * draw(st.integers(1, 3)), "gpu": draw(st.integers(1, 2))} for i, b in enumerate(sizes)]
+            if draw(st.booleans()):
+                strategies = list(draw(st.permutations(strategies)))  # a profile may list its strategies in any order
             models.append({"name": f"m{m}", "strategies": strategies, "load_gpu": draw(st.integers(0, 1)), "preloaded": draw(st.booleans())})
         op = st.one_of(
             st.tuples(st.just("submit"), st.integers(0, 2), st.integers(1, 5), st.integers(-1, 14)),
